@@ -538,6 +538,9 @@ func (w FederatingWrappedCallbacks) accept(c context.Context, a vocab.ActivitySt
 			}
 			// Ensure that we are one of the actors on the Follow.
 			actors := follow.GetActivityStreamsActor()
+			if actors == nil {
+				return fmt.Errorf("a Follow in an Accept has no actors")
+			}
 			for iter := actors.Begin(); iter != actors.End(); iter = iter.Next() {
 				id, err := ToId(iter)
 				if err != nil {
@@ -576,6 +579,8 @@ func (w FederatingWrappedCallbacks) accept(c context.Context, a vocab.ActivitySt
 				t, err := w.db.Get(c, maybeMyFollowIRI)
 				if err != nil {
 					return err
+				} else if t == nil {
+					return fmt.Errorf("peer gave an Accept wrapping a Follow that is not in the database")
 				}
 				if !streams.IsOrExtendsActivityStreamsFollow(t) {
 					return fmt.Errorf("peer gave an Accept wrapping a Follow but provided a non-Follow id")
@@ -587,6 +592,10 @@ func (w FederatingWrappedCallbacks) accept(c context.Context, a vocab.ActivitySt
 				// Ensure that we are one of the actors on the Follow.
 				ok = false
 				actors := follow.GetActivityStreamsActor()
+				followObj := follow.GetActivityStreamsObject()
+				if actors == nil || followObj == nil {
+					return fmt.Errorf("the Follow in the database has no actors or no objects")
+				}
 				for iter := actors.Begin(); iter != actors.End(); iter = iter.Next() {
 					id, err := ToId(iter)
 					if err != nil {
@@ -610,7 +619,6 @@ func (w FederatingWrappedCallbacks) accept(c context.Context, a vocab.ActivitySt
 					acceptActors[id.String()] = false
 				}
 				// Verify all actor(s) were on the original Follow.
-				followObj := follow.GetActivityStreamsObject()
 				for iter := followObj.Begin(); iter != followObj.End(); iter = iter.Next() {
 					id, err := ToId(iter)
 					if err != nil {
